@@ -376,17 +376,18 @@ fn low_byte_lookalikes() -> Vec<u32> {
 }
 
 fn drive_scalars(sink: &mut Sink, rng: &mut Rng, n: usize) {
-    // every scalar value if n covers them, otherwise boundaries + a seeded sample
-    let all: Box<dyn Iterator<Item = u32>> = if n >= 0x110000 {
-        Box::new(0u32..0x110000)
-    } else {
-        // boundaries, ASCII white space, and the invisible / formatting characters a "tolerant" reader might strip
-        let mut v: Vec<u32> = vec![0xA, 0xB, 0xC, 0xD, 0x85, 0xA0, 0xAD, 0x180E, 0x200B, 0x200C, 0x200D, 0x200E, 0x200F, 0x2028, 0x2029, 0x202F, 0x2060, 0x3000, 0xFEFF, 0xFFFE,
+    // boundaries, ASCII white space, and the invisible / formatting characters a "tolerant" reader might strip
+    let mut fixed: Vec<u32> = vec![0xA, 0xB, 0xC, 0xD, 0x85, 0xA0, 0xAD, 0x180E, 0x200B, 0x200C, 0x200D, 0x200E, 0x200F, 0x2028, 0x2029, 0x202F, 0x2060, 0x3000, 0xFEFF, 0xFFFE,
                                    // capitals without a lower-case mapping, special case mappings, ligatures
                                    0x2102, 0x2115, 0x2124, 0x3D2, 0x1D400, 0x1D49C, 0x1D7CA, 0xDF, 0x1E9E, 0x3A3, 0x3C2, 0x345, 0xFB00, 0xFB06, 0x1F88, 0x1FBC, 0x2160, 0x24B6, 0x10400,
                                    0, 9, 0x1F, 0x20, 0x25, 0x2F, 0x7F, 0x80, 0xC6, 0xDF, 0x130, 0x131, 0x17F, 0x1C5, 0x3A3, 0x7FF, 0x800, 0x212A, 0x24B6,
                                    0xD7FF, 0xE000, 0xFF21, 0xFFFD, 0xFFFF, 0x10000, 0x10400, 0x1E900, 0x10FFFF];
-        v.extend(low_byte_lookalikes());
+    fixed.extend(low_byte_lookalikes());
+    // every scalar value if n covers them, otherwise the fixed list + a seeded sample
+    let all: Box<dyn Iterator<Item = u32>> = if n >= 0x110000 {
+        Box::new(0u32..0x110000)
+    } else {
+        let mut v = fixed.clone();
         for _ in 0..n.saturating_sub(v.len()) {
             v.push((rng.next() % 0x110000) as u32);
         }
@@ -417,6 +418,11 @@ fn drive_scalars(sink: &mut Sink, rng: &mut Rng, n: usize) {
         // generic: the character raw in the name, behind a namespace
         let s3 = format!("pkg:t/n/x{}", c);
         parse_event::<String>(sink, "generic", "String", &s3);
+        // The further positions: every scalar below U+3000 (all cased scripts' bulk, punctuation, format characters), the
+        // fixed list above, and every 61st scalar beyond when the sweep is exhaustive (the three positions above see all).
+        if n >= 0x110000 && i >= 0x3000 && i % 61 != 0 && !fixed.contains(&i) {
+            continue;
+        }
         // in front of the scheme and inside the type: never accepted / only [A-Za-z0-9.+-] accepted
         parse_all(sink, &format!("{}pkg:npm/n", c));
         parse_all(sink, &format!("pkg:npm{}/n", c));
